@@ -637,7 +637,7 @@ def gen_recipe_cases(rng: random.Random, n: int) -> List[Case]:
         scen = rng.choice(["valid", "valid-split", "use-first", "def-later-block", "missing-root", "nested-not-root",
                            "bumped", "retyped", "in-body", "in-embedded", "shuffle", "valid-three-blocks",
                            "flag-flipped", "flag-flipped", "nested-earlier-block", "nested-earlier-block",
-                           "hash-collision", "hash-collision"])
+                           "hash-collision", "hash-collision", "empty-block-between", "empty-block-between"])
         if scen == "valid":
             bs = [[a, b, user, wrapped]]
         elif scen == "valid-split":
@@ -665,6 +665,15 @@ def gen_recipe_cases(rng: random.Random, n: int) -> List[Case]:
             if rng.random() < 0.3:
                 use = {"SR": [use, [["flagged use"]], True]}
             bs = rng.choice([[[a1, use]], [[a1], [use]], [[a1], [g_ing(rng)], [use]], [[a1, g_ing(rng)], [g_tree(rng, 1, [a1])], [use]]])
+        elif scen == "empty-block-between":
+            # blocks with ZERO trees anywhere in the 'follows' chain change nothing: valid backward references across
+            # them are accepted (and invalid ones still refused)
+            bs = rng.choice([[[a], [], [{"S": [g_svs(rng), [{"R": [a, 0, g_amount(rng)]}]]}]],
+                             [[], [a, b], [], [], [user, wrapped]],
+                             [[a], [], [b], [], [user]],
+                             [[], [], [a, g_ing(rng)], [], [wrapped]],
+                             [[a], [], [], [wrapped]],
+                             [[], [a], [], [user]]])     # user refers to b as well, which is nowhere: refused
         elif scen == "hash-collision":
             # the reference embeds a copy that differs from the root in ONE number x -> x + (2**61 - 1): CPython gives
             # both the same hash (0 / 2**61-1, 1 / 2**61, 1/2 / 1/2 + 2**61-1 ...), but they are different values
